@@ -98,6 +98,13 @@ func Denitmo(g *GlobalVarsMain) {
 	thetarel1 := thetaOb30 / thetasat1
 	thetarel2 := thetaOb60 / thetasat2
 	thetarel3 := thetaOb90 / thetasat3
+	// profiles with fewer than 9 layers have no pore volume in the deeper blocks: avoid 0/0 (NaN)
+	if thetasat2 == 0 {
+		thetarel2 = 0
+	}
+	if thetasat3 == 0 {
+		thetarel3 = 0
+	}
 	nitratOb30 := g.C1[0] + g.C1[1] + g.C1[2]
 	nitratOb60 := g.C1[3] + g.C1[4] + g.C1[5]
 	nitratOb90 := g.C1[6] + g.C1[7] + g.C1[8]
